@@ -48,6 +48,9 @@ CHECKS = {
  "C12": ("fault_enumeration", "cancel injected at enumerated points (verif hooks park the runs) in child processes; crash / dead-lock-dump / trace-marker monitors; free-running -race variant",
          "injection point x tasks in flight (0..4) x stages waiting (0..3) x trigger x {once, twice, concurrent}; the parent observes crashes and classifies goroutine dumps; offline trace check for starts after CANCEL_RET and for interrupted tasks reporting success.",
          "bounded progress (12 s) stands in for 'returns'; dead-lock is decided from the goroutine dump, slowness is re-confirmed", "DESIGN.md §4 C12"),
+ "C14": ("exploration", "ordered-trace grammar checker (bracket grammar / counting with Hall condition) over in-process and CLI workloads; race detector",
+         "1..8 tasks over 1..3 contexts started sequentially, from a goroutine barrier, as parallel stages and through the binary (one or two targets, succeeding and failing); hooks append tokens to one O_APPEND file.",
+         "skipped tasks may have 0 or 1 before/after; `down` after a failed `up` is a don't-care", "DESIGN.md §4 C14"),
 }
 PENDING = {}
 
